@@ -339,3 +339,50 @@ def first_turn(p):
     q.effects = [(ef[0], ef[1], tuple(rw(x) for x in ef[2])) + tuple(ef[3:]) if ef[0] == "call" else tuple(rw(x) if isinstance(x, tuple) else x for x in ef) for ef in p.effects]
     q.ret = rw(p.ret) if p.ret is not None else None
     return q
+
+
+def accumulation(ctx, body):
+    """For a function that is one accumulation loop over a sequence (a fold, however it is spelt): returns
+    dict(seq=<positions the loop runs over>, init=<result when the sequence is empty>, acc=<accumulator local>,
+    turns=[(guards, new accumulator value or None when unchanged)], result_is_acc=bool) with the turn in indexed form,
+    or None when the function does not have that shape."""
+    from .table import render, summarize, strip_ver
+    loops = body.natural_loops()
+    if len(loops) != 1:
+        return None
+    h = next(iter(loops))
+    ls = Lockstep(ctx, body, h)
+    rets = []
+    turns = []
+    seq = None
+    acc = None
+    for p in ls.paths(ctx):
+        gs, r = summarize(p)
+        gs = [strip_ver(g) for g in gs]
+        drv = [g for g in gs if g.startswith("variant(next(<")]
+        if not drv:
+            return None
+        seq = drv[0][len("variant(next(<"):drv[0].rindex(">))")]
+        if p.end == "return":
+            rets.append(strip_ver(r))
+            continue
+        if not p.end.startswith("loop"):
+            return None
+        turns.append((p, [g for g in gs if g not in drv]))
+    import re as _re
+    m = [_re.match(r"^uninit\((\d+)\)$", r) for r in rets]
+    if not rets or not all(m) or len({x.group(1) for x in m}) != 1:
+        return None
+    acc = int(m[0].group(1))
+    out_turns = []
+    for p, gs in turns:
+        v = p.env.get(acc, ("uninit", acc))
+        nv = strip_ver(render(ls.rw(v)))
+        out_turns.append((gs, None if nv == "uninit(%d)" % acc else nv.replace("uninit(%d)" % acc, "ACC")))
+    init = None
+    for p in ctx.walk(body, max_visits=1).paths:
+        if p.end == "return" and p.ret is not None:
+            g0 = [strip_ver(g) for g in summarize(p)[0]]
+            if len(g0) == 1 and g0[0].endswith("=None"):
+                init = strip_ver(render(p.ret))
+    return {"seq": seq, "init": init, "acc": acc, "turns": out_turns}
